@@ -60,35 +60,36 @@ type NamedTerm struct {
 }
 
 type VC struct {
-	prog          *Program
-	fi            *FuncInfo
-	script        []string
-	obls          []*Obligation
-	n             int
-	tags          map[string]int
-	heapSort      map[string]string
-	declared      map[string]bool
-	epochs        int
-	errs          []string
-	ufs           map[string]bool
-	callN         map[string]int
-	srcCache      map[string][]byte
-	dropped       map[string]int
-	entryVals     []NamedTerm
-	deferLits     []*ast.FuncLit
-	closureLits   map[string]*closureInfo
-	quantDepth    int // >0 while the body of a quantifier is being translated
-	asserted      map[string]bool
-	liveSplits    int
-	structSorts   map[string]*types.Struct
-	sortDecls     []string // datatype declarations (emitted first)
-	funDecls      []string // uninterpreted functions / global constants (emitted after the sorts)
-	ghostKeys     map[string]bool
-	nameCount     map[string]int
-	usedContracts map[string]bool
-	namedFns      map[string]*types.Func
-	defs          map[string]string
-	patMemo       map[string]bool
+	typeInvChecked map[string]bool
+	prog           *Program
+	fi             *FuncInfo
+	script         []string
+	obls           []*Obligation
+	n              int
+	tags           map[string]int
+	heapSort       map[string]string
+	declared       map[string]bool
+	epochs         int
+	errs           []string
+	ufs            map[string]bool
+	callN          map[string]int
+	srcCache       map[string][]byte
+	dropped        map[string]int
+	entryVals      []NamedTerm
+	deferLits      []*ast.FuncLit
+	closureLits    map[string]*closureInfo
+	quantDepth     int // >0 while the body of a quantifier is being translated
+	asserted       map[string]bool
+	liveSplits     int
+	structSorts    map[string]*types.Struct
+	sortDecls      []string // datatype declarations (emitted first)
+	funDecls       []string // uninterpreted functions / global constants (emitted after the sorts)
+	ghostKeys      map[string]bool
+	nameCount      map[string]int
+	usedContracts  map[string]bool
+	namedFns       map[string]*types.Func
+	defs           map[string]string
+	patMemo        map[string]bool
 }
 
 func newVC(prog *Program, fi *FuncInfo) *VC {
@@ -634,6 +635,19 @@ func (vc *VC) havocAlloc(st *State) {
 
 func (vc *VC) havocAll(st *State) {
 	old := vc.alloc(st)
+	// fields assigned only at construction keep their value on every object that already exists
+	type kept struct {
+		ff  *FinalField
+		was Term
+	}
+	var keep []kept
+	for _, ff := range vc.prog.Finals {
+		if vc.fi == nil || ff.PkgPath != vc.fi.Pkg.PkgPath {
+			continue
+		}
+		srt := ArraySort(SInt, vc.sortOf(ff.Sort))
+		keep = append(keep, kept{ff, vc.heapGet(st, ff.Key, srt)})
+	}
 	st.base = vc.newEpoch()
 	for k := range st.heap {
 		if vc.ghostKeys[k] {
@@ -643,6 +657,23 @@ func (vc *VC) havocAll(st *State) {
 	}
 	nw := vc.alloc(st)
 	vc.assumeGlobal(app(SBool, ">=", nw, old))
+	for _, k := range keep {
+		now := vc.heapGet(st, k.ff.Key, k.was.Sort)
+		r := Term{"r!", SInt}
+		vc.assume(st, Forall([]Term{r}, Imp(And(app(SBool, "<", IntLit(0), r), app(SBool, "<", r, old)), Eq(Select(now, r), Select(k.was, r))), Select(now, r)))
+		name := "final." + k.ff.Name + "/assigned_only_at_construction"
+		if vc.typeInvChecked == nil {
+			vc.typeInvChecked = map[string]bool{}
+		}
+		if !vc.typeInvChecked[name] {
+			vc.typeInvChecked[name] = true
+			goal, text := True, "field "+k.ff.Name+" is never assigned after construction (syntactic scan)"
+			if len(k.ff.Breaches) > 0 {
+				goal, text = False, strings.Join(k.ff.Breaches, "; ")
+			}
+			vc.obls = append(vc.obls, &Obligation{Name: vc.fi.Key + "/" + name, Kind: "assert", Func: vc.fi.Key, ScriptLen: 0, Goal: goal, Text: text})
+		}
+	}
 }
 
 func fieldKey(structName, field string) string { return "F:" + structName + "." + field }
